@@ -131,7 +131,26 @@ def build_env(T, qr_signs=None, skip=(), replace=None):
     ns = dict(ops=ops, math=ra.MathNS(T), OrderedDict=OrderedDict, defaultdict=defaultdict, get_tracing_state=lambda: False, Tensor=TensorR)
 
     def align_tensor(new_inputs, x, expand=False):
-        raise Unsupported("align_tensor in a value-level contract (batch alignment is the record-level contracts' subject)")
+        """callee contract of tensor.align_tensor (proved: AlignTensor) on object arrays: dims permuted to the order of
+        new_inputs, a unit dim for every input x lacks (its full size with expand=True), every value staying with its names"""
+        old = list(x.inputs)
+        data = np.asarray(x.data, dtype=object)
+        present = [k_ for k_ in new_inputs if k_ in x.inputs]
+        if set(old) - set(present):
+            raise Declined("AssertionError", "align_tensor: an input of x is missing from new_inputs")
+        data = np.transpose(data, [old.index(k_) for k_ in present] + list(range(len(old), data.ndim)))
+        shape, pos = [], 0
+        for k_ in new_inputs:
+            if k_ in x.inputs:
+                shape.append(data.shape[pos])
+                pos += 1
+            else:
+                shape.append(1)
+        event = data.shape[pos:]
+        data = data.reshape(tuple(shape) + event)
+        if expand:
+            data = np.broadcast_to(data, tuple(d.size for d in new_inputs.values()) + event)
+        return data
 
     ns["align_tensor"] = align_tensor
     for h in HELPERS:
@@ -1694,3 +1713,88 @@ def _sample_fault_structures(self, tier, label):
 
 
 SampleAllExact.mutant_structures = _sample_fault_structures
+
+
+# ==================================================================================================
+@register
+class IntegrateGaussianGaussianBatched(Contract):
+    """eager_integrate_gaussian_gaussian with integer inputs: the measure over (i, x), the integrand over (j, x) or (i, x) or x
+    alone -- the real align_gaussian expands the measure to the union of the integer inputs; the result is a Tensor over those
+    inputs with, for EVERY index (i, j) and every real w, P:
+        data[i, j]  ==  Z_i * (-1/2) ( |mu_i Pr_j - wr_j|^2 + Tr(Pr_j' Sigma_i Pr_j) ),     Z_i, mu_i, Sigma_i of the MEASURE at i
+    (in particular the normaliser is indexed by the measure's own batch index, not broadcast along the integrand's).
+    shape family: x of size 1, batch sizes 2, ranks 1..2."""
+
+    props = ("C13",)
+    file = "funsor/integrate.py"
+    qualname = "eager_integrate_gaussian_gaussian"
+    total = True
+    assumptions = ASSUME
+    ground_backend = BACKEND
+    mutants = (
+        ("normaliser of the unaligned measure (seeded C13_integrate_unaligned_normalizer)", "            norm = ops.exp(lhs._log_normalizer)", "            norm = ops.exp(log_measure._log_normalizer)"),
+        ("mean of the unaligned measure", "            mean = _vm(lhs._mean, rhs_prec_sqrt)", "            mean = _vm(log_measure._mean, rhs_prec_sqrt)"),
+    )
+
+    def structures(self, tier):
+        for lay in ("i|j", "i|i", "i|-", "-|j"):
+            for rl, rr in ((1, 1), (2, 1)):
+                yield "batch=%s,ranks=%d,%d" % (lay, rl, rr), (lay, rl, rr)
+
+    def build(self, p, st):
+        lay, rl, rr = st
+        lb, rb = lay.split("|")
+        lshape = (2,) if lb != "-" else ()
+        rshape = (2,) if rb != "-" else ()
+        T, a = mk_tower(Pl=lshape + (1, rl), wl=lshape + (rl,), Pr=rshape + (1, rr), wr=rshape + (rr,))
+        ns, ops, G = build_env(T)
+
+        class VarR:
+            def __init__(self, name, dom):
+                self.name, self.dtype, self.output = name, dom.dtype, dom
+
+            def __hash__(self):
+                return hash(self.name)
+
+            def __eq__(self, o):
+                return isinstance(o, VarR) and o.name == self.name
+
+        lin_ = OrderedDict(([(lb, Dm(2))] if lb != "-" else []) + [("x", R(1))])
+        rin = OrderedDict(([(rb, Dm(2))] if rb != "-" else []) + [("x", R(1))])
+        rv = frozenset([VarR("x", R(1))])
+        return Ctx(args=(G(a["wl"], a["Pl"], lin_), G(a["wr"], a["Pr"], rin), rv), namespace=dict(ns), T=T, a=a, st=st, lb=lb, rb=rb)
+
+    def ensures(self, ctx, result):
+        T, a = ctx.T, ctx.a
+        lb, rb = ctx.lb, ctx.rb
+        names = [n for n in (lb, rb) if n != "-"]
+        names = list(OrderedDict.fromkeys(names))
+        if not (isinstance(result, TensorR) and list(result.inputs) == names):
+            return [("returns_a_tensor_over_the_union_of_the_integer_inputs", False)]
+        data = np.asarray(result.data, dtype=object)
+        if data.shape != (2,) * len(names):
+            return [("one_value_per_index", False)]
+        ok_l, ok_c = True, True
+        for idx in itertools.product(range(2), repeat=len(names)):
+            env = dict(zip(names, idx))
+            Pl = a["Pl"][env[lb]] if lb != "-" else a["Pl"]
+            wl = a["wl"][env[lb]] if lb != "-" else a["wl"]
+            Pr = a["Pr"][env[rb]] if rb != "-" else a["Pr"]
+            wr = a["wr"][env[rb]] if rb != "-" else a["wr"]
+            v = data[idx]
+            if not isinstance(v, ExpV):
+                return [("value_is_normaliser_times_expectation", False)]
+            Lam = Pl @ Pl.T
+            mu = ra.solve_spd(Lam, Pl @ wl)
+            resid = mu @ Pr - wr
+            SigPr = ra.solve_spd(Lam, Pr)
+            tr = RE.coerce(T, 0)
+            for r_ in range(Pr.shape[0]):
+                for c_ in range(Pr.shape[1]):
+                    tr = tr + Pr[r_, c_] * SigPr[r_, c_]
+            ok_l = lin_verdict(T, v.lin, log_normalizer_spec(T, Pl, wl)) and ok_l
+            ok_c = ra.verdict(T, v.coef, (resid @ resid + tr) * ra.Fraction(-1, 2)) and ok_c
+        return [("normaliser_is_the_measures_at_its_own_index", ok_l), ("expectation_under_the_measure_at_that_index", ok_c)]
+
+
+IntegrateGaussianGaussianBatched.mutant_structures = _quick_structures_for_faults
